@@ -1025,6 +1025,17 @@ def gen_builtins(quick, seed):
         n += 1
         out.append(ps("bi:%d" % n, "\n".join(lines), pt={"meas": "m", "tags": {"tg": "tv"}, "fields": {"message": "msg", "n": 7, "fi": 1}},
                       tag="random walk over the point's keys, then type-sensitive reads"))
+    # a list / map stored into the point is JSON text from then on: read back, measured, trimmed, compared, moved to a tag, re-stored
+    colls = ['[1, "a<b", nil, true]', '{"z": 1, "a": [1.5, {"q": "x\\ty"}]}', '[]', '{}', '[[1], ["two", false], {"k": nil}]', '{"b": 2, "a": 1, "c": "&"}',
+             '[-7, 1.25, 100.0]', '["say \\"hi\\"", "back\\\\slash"]']
+    for ci, cl in enumerate(colls):
+        for how in ['add_key(k, %s)\nprobe(k, len(k))', 'add_key(k, %s)\nx = k + "!"\nprobe(x)\nadd_key(k2, k)\nprobe(k2, get_key(k))',
+                    'v = %s\nset_tag(t2, v)\nprobe(t2, len(t2))\nadd_key(f2, t2)\nprobe(f2)', 'add_key(k, %s)\nset_tag(k)\nprobe(k)\nrename(k3, k)\nprobe(k3)',
+                    'add_key(k, %s)\ntrim(k, "[]{}")\nprobe(k)\nuppercase(k)\nprobe(k)', 'add_key(k, %s)\nif k == "[]" { probe(1) } elif k { probe(2) }\nfor c in k { probe(c)\nbreak }',
+                    'v = %s\nadd_key(k, v)\nv2 = k\nprobe(v, v2)\ncast(k, "str")\nprobe(k)']:
+            n += 1
+            out.append(ps("bi:%d" % n, how % cl, pt={"meas": "m", "tags": {"tg": "tv"}, "fields": {"fi": 7, "message": "msg"}},
+                          tag="collections stored in the point read back as JSON text"))
     # sequences: the return register is not stale between calls; bystanders untouched
     J1, J2 = '"[1,\\"a\\",null]"', '"{\\"a\\":{\\"b\\":[true]}}"'     # texts of the model's JSON catalog
     seqs = ['a = load_json(%s)\na[0] = 99\nb = load_json(%s)\nprobe(a, b)' % (J1, J1),
